@@ -15,7 +15,7 @@ func (c *ClusterNode) rpcClient(destination string) (*rpc.Client, error) {
 		return client, nil
 	}
 	c.logger.Debug().Str("destination", destination).Msg("Creating new rpc client")
-	client, err := mrpc.DialHTTP("tcp", destination)
+	client, err := mrpc.DialHTTP("tcp", destination, time.Duration(c.cfg.RpcTimeout)*time.Second)
 	if err != nil {
 		return nil, err
 	}
